@@ -24,7 +24,7 @@ func (c03) ID() string { return "C03" }
 func (c03) Meta(tier string) engine.Meta {
 	return engine.Meta{
 		Level: "model_checking",
-		Rule: "the union of the program corpora of C01 (objects), C02 (partial operations, size families), C04 (grids, literal forms, compositions) and C06 (effects, nested lazies), plus targeted families: map literals with duplicate / numerically equal keys, 255 and 256 call arguments, > 42 stack slots inside thunks, conditionals whose branches exceed 255 and 65535 bytes, > 255 constants inside thunk bodies; every accepted program is run on the four back ends (bytecode VM switch loop, call-threaded loop through the hook, closure compiler, AST interpreter) with user-registered strict / lazy / polymorphic functions present. Oracle: pairwise equal outcome class, structurally equal value (own reader) and identical ordered host-call trace; a compile-time refusal is accepted only from the VM and only as its capacity assertion. non-trivial = every case (four executions compared)",
+		Rule: "the union of the program corpora of C01 (objects), C02 (partial operations, size families), C04 (grids, literal forms, compositions) and C06 (effects, nested lazies), plus targeted families: dynamic calls through function-typed values and one compiled expression invoked along every history of <= 3 environments drawn from 3 variants, map literals with duplicate / numerically equal keys, 255 and 256 call arguments, > 42 stack slots inside thunks, conditionals whose branches exceed 255 and 65535 bytes, > 255 constants inside thunk bodies; every accepted program is run on the four back ends (bytecode VM switch loop, call-threaded loop through the hook, closure compiler, AST interpreter) with user-registered strict / lazy / polymorphic functions present. Oracle: pairwise equal outcome class, structurally equal value (own reader) and identical ordered host-call trace; a compile-time refusal is accepted only from the VM and only as its capacity assertion. non-trivial = every case (four executions compared)",
 		Bound: "as the source corpora (depth 2 / one nested operand in quick, full depth 2 in thorough)",
 		Assumptions: []string{"no reference model is involved: the four implementations are compared with each other on every case"},
 	}
@@ -133,6 +133,7 @@ func (c03) Generate(tier string, yield func(*engine.Case) bool) {
 		}
 		emit(srcCase("thunk-consts", fmt.Sprintf("second-list-%d", n), "len(second(0,["+repStr("1", n, ",")+"]))", none, ""))
 	}
+	dynCases(emit)
 	// ---- the other properties' corpora
 	sub := func(prefix string, d engine.Driver, keep func(c *engine.Case) bool) {
 		if !ok {
@@ -155,6 +156,9 @@ func (c03) Generate(tier string, yield func(*engine.Case) bool) {
 }
 
 func (c03) Run(c *engine.Case) *engine.Result {
+	if len(c.Args) > 0 && c.Args[0] == "dyn" {
+		return runDyn(c)
+	}
 	res := &engine.Result{NonTrivial: true}
 	var p *ProgObs
 	if len(c.Args) > 0 && c.Args[0] == "src" {
